@@ -130,7 +130,8 @@ impl Storage {
                     "failed loading block from disk : {:?}",
                     result.err().unwrap()
                 );
-                return;
+                // one unreadable file must not hide the files after it
+                continue;
             }
             debug!("file : {:?} loaded", file_name);
             let buffer: Vec<u8> = result.unwrap();
@@ -142,11 +143,15 @@ impl Storage {
                     "failed deserializing block with buffer length : {:?}",
                     buffer_len
                 );
-                return;
+                // a torn file (crash while writing) is skipped, the remaining files are still loaded
+                continue;
             }
             let mut block: Block = result.unwrap();
             block.force_loaded = true;
-            block.generate().unwrap();
+            if block.generate().is_err() {
+                warn!("failed generating block data for file : {:?}", file_name);
+                continue;
+            }
             debug!("block : {:?} loaded from disk", block.hash.to_hex());
             mempool.add_block(block);
         }
